@@ -376,13 +376,16 @@ pub fn run_live(rep: &mut Report, targets: u64) {
     use crate::spec::*;
     use crate::tspec::*;
     let mut rng = Rng::new(rep.seed.wrapping_mul(424_243));
-    for _ in 0..targets {
+    for ti in 0..targets {
         let mut b = Builder::new();
         // an executable pattern region and a non-executable one
         let ex = b.anon(2, 4, 5, Fill::Pattern);
         let nx = b.anon(2, 4, 6, Fill::Pattern);
         let (exa, nxa) = (b.spec.regions[ex].addr, b.spec.regions[nx].addr);
-        let n = rng.range(1, 5) as usize;
+        // every third target has more threads than a size limit keeps at full length: the stacks of
+        // the threads beyond the 20th are shortened AND sanitized
+        let many = ti % 3 == 2;
+        let n = if many { 26 } else { rng.range(1, 5) as usize };
         for _ in 0..n {
             let pages = rng.range(1, 4);
             let sp_off = rng.below(pages * PAGE - 64) & !7;
@@ -430,8 +433,11 @@ pub fn run_live(rep: &mut Report, targets: u64) {
         };
         let mut o = DumpOpts::new(t.pid, t.pid);
         o.sanitize = true;
-        if rng.chance(1, 2) {
+        if many || rng.chance(1, 2) {
             o.size_limit = Some(0);
+        }
+        if many {
+            rep.count("live_dumps_sanitized_with_limit_and_many_threads", 1);
         }
         let (out, _) = {
             let _g = dump::DUMP_LOCK.lock().unwrap_or_else(|e| e.into_inner());
@@ -483,5 +489,6 @@ pub fn run(rep: &mut Report, thorough: bool, direct_only: bool) {
     if !direct_only {
         run_live(rep, if thorough { 150 } else { 12 });
         rep.require("live_stacks_judged", 5);
+        rep.require("live_dumps_sanitized_with_limit_and_many_threads", 2);
     }
 }
